@@ -151,7 +151,8 @@ Definition set_claim (cl : claims) (k : claim_key) (i : nat) : claims :=
   then map (fun p => if ck_eqb (fst p) k then (k, i) else p) cl
   else cl ++ [(k, i)].
 
-(* one revision: keep a child-kind group iff some of its names survives (the group itself is kept unfiltered) *)
+(* one revision: of each child-kind group keep the names that the latest revision still desires and
+   that no earlier revision in the list claims; drop the group when none is left *)
 Definition claims_of_revision (c : ccfg) (latest_ds : list (string * string * string * json)) (i : nat)
            (r : revision) (cl : claims) : revision * claims :=
   let '(groups, cl') :=
@@ -159,19 +160,19 @@ Definition claims_of_revision (c : ccfg) (latest_ds : list (string * string * st
       let '(gs, cl0) := acc in
       if negb (is_rolling c (ck_group ck) (ck_kind ck)) then (gs, cl0) else
       let '(kept, cl1) :=
-        fold_left (fun (a : nat * claims) (name : string) =>
-          let '(n, cla) := a in
+        fold_left (fun (a : list string * claims) (name : string) =>
+          let '(ns, cla) := a in
           match find_desired latest_ds (ck_group ck) (ck_kind ck) name with
-          | None => (n, cla)
+          | None => (ns, cla)
           | Some _ =>
               match claimant cla (ck_group ck, ck_kind ck, name) with
-              | Some _ => (n, cla)
-              | None => (S n, set_claim cla (ck_group ck, ck_kind ck, name) i)
+              | Some _ => (ns, cla)
+              | None => (ns ++ [name], set_claim cla (ck_group ck, ck_kind ck, name) i)
               end
-          end) (ck_names ck) (O, cl0) in
+          end) (ck_names ck) ([], cl0) in
       match kept with
-      | O => (gs, cl1)
-      | _ => (gs ++ [ck], cl1)
+      | [] => (gs, cl1)
+      | _ => (gs ++ [mkRck (ck_group ck) (ck_kind ck) kept], cl1)
       end) (rev_children r) ([], cl) in
   (mkRevision (rev_obj r) (rev_patch r) groups, cl').
 
